@@ -69,6 +69,15 @@ def atomicity(rel, fn, sol, r):
                         r.fail(key, f'{fn}: a crash after statement {kk} ("{stmts[kk - 1].text[:60]}") persists "{(s1 if z3.is_true(m.eval(a1)) else s2).text[:50]}" but not '
                                     f'"{(s2 if z3.is_true(m.eval(a1)) else s1).text[:50]}" (state-changing statement outside the transaction bracket)',
                                detail={'crash_after': kk, 'program': [x.text[:80] for x in stmts]})
+    sps = [s for s in stmts if s.kind == 'SAVEPOINT']
+    if sps:
+        name = sps[0].text.split()[-1]
+        err = [s.text for s in stmts if s.kind == 'ROLLBACK']
+        full = any(re.search(r'ROLLBACK TO (SAVEPOINT )?' + re.escape(name), t, re.I) and re.search(r'RELEASE (SAVEPOINT )?' + re.escape(name), t, re.I) for t in err) \
+            or any(re.fullmatch(r'ROLLBACK', t.strip(), re.I) for t in err)
+        if err and not full:
+            r.fail(f'O1/{fn}/savepoint-left-open', f'{fn}: the error path rewinds savepoint {name} but never releases it: the implicit transaction stays open and every later write on the '
+                   'connection is lost when the database is closed')
     if not any(s.kind == 'ROLLBACK' for s in stmts):
         r.fail(f'O1/{fn}/no-rollback-on-error', f'{fn}: no ROLLBACK on the error path (a failed statement would leave the transaction open)')
     r.samples.append({'function': fn, 'statements': [f'{i}: {s.kind} {s.table or ""}' for i, s in enumerate(stmts)], 'brackets': brackets,
